@@ -13,6 +13,14 @@ import z3
 
 RL_PER_MS = 12000    # resource units per millisecond of nominal budget (generous; wall-clock limits are the safety net)
 
+if not os.environ.get("PYVC_DIO"):
+    # the Diophantine handler of z3's arithmetic solver was caught ignoring rlimit, timeout and interrupt (a solver
+    # process spinning for ten minutes in lp::dioph_eq): switched off for every context created from here on
+    try:
+        z3.set_param("lp.dio", False)
+    except z3.Z3Exception:
+        pass
+
 PORTFOLIO = [
     ("z3 default", {}),
     ("z3 mbqi-only", {"smt.ematching": False}),
@@ -78,6 +86,7 @@ def _try(hyps, goal, cfg, tmo, core=False):
     so machine load does not change the verdict; wall-clock timeout and interrupt are safety nets."""
     ctx = z3.Context()
     s = z3.Solver(ctx=ctx)
+
     s.set("rlimit", int(max(tmo, 200) * RL_PER_MS))
     s.set("timeout", int(max(tmo, 200) * 10 + 5000))
     if core:
@@ -126,6 +135,8 @@ def fingerprint(e):
 
 def hints():
     global _HINTS
+    if os.environ.get("PYVC_NO_HINTS"):
+        return {}
     if _HINTS is None:
         try:
             with open(HINTS_PATH) as f:
@@ -148,6 +159,69 @@ def core_of(obl, hyps, cfg, tmo=4000):
 
 
 def discharge(obl, timeout_ms=20000, use_cvc5=True, want_model=False, record=None, **_):
+    """Discharge in a forked child with a hard wall-clock limit: some z3 procedures (the Diophantine handler of the
+    arithmetic solver was caught at it) honour neither the resource limit nor the timeout nor an interrupt; the child is
+    killed and the obligation counts as undecided ("hard wall-clock limit"), never as proved or refuted."""
+    if os.environ.get("PYVC_NO_FORK"):
+        return _discharge(obl, timeout_ms, use_cvc5, record)
+    import select
+    hard = 240.0 + timeout_ms / 1000.0 * 6
+    t0 = time.time()
+    rfd, wfd = os.pipe()
+    pid = os.fork()
+    if pid == 0:
+        try:
+            os.close(rfd)
+            rec = {} if record is not None else None
+            r = _discharge(obl, timeout_ms, use_cvc5, rec)
+            with os.fdopen(wfd, "w") as f:
+                json.dump({"result": r, "record": rec}, f)
+        except BaseException as e:          # noqa
+            try:
+                os.write(wfd, json.dumps({"result": {"status": "unknown", "backend": "z3 portfolio", "seconds": time.time() - t0,
+                                                     "reason": "solver process failed: %r" % (e,)}, "record": None}).encode())
+            except Exception:
+                pass
+        finally:
+            os._exit(0)
+    os.close(wfd)
+    chunks = []
+    killed = False
+    while True:
+        left = hard - (time.time() - t0)
+        if left <= 0:
+            killed = True
+            break
+        ready, _, _ = select.select([rfd], [], [], min(left, 5.0))
+        if ready:
+            b = os.read(rfd, 1 << 16)
+            if not b:
+                break
+            chunks.append(b)
+    os.close(rfd)
+    if killed:
+        try:
+            os.kill(pid, 9)
+        except OSError:
+            pass
+    try:
+        os.waitpid(pid, 0)
+    except OSError:
+        pass
+    if not killed and chunks:
+        try:
+            d = json.loads(b"".join(chunks).decode())
+            if record is not None and d.get("record"):
+                record.update(d["record"])
+            return d["result"]
+        except Exception:
+            pass
+    return {"status": "unknown", "backend": "z3 portfolio + cvc5", "seconds": time.time() - t0,
+            "reason": "hard wall-clock limit of %.0f s (the solver process did not return and was killed)" % hard if killed
+            else "solver process died without an answer"}
+
+
+def _discharge(obl, timeout_ms=20000, use_cvc5=True, record=None):
     """Staged plan (iterative deepening): cheap attempts first.  The first `unsat` proves the
     obligation (a subset of the hypotheses suffices); `sat` on the full set refutes it.  A recorded
     proof hint (the hypotheses that sufficed last time) only selects a subset of the real
